@@ -135,7 +135,9 @@ class TTCFG(
                             (self.rules[nT1][P1][1], other.rules[nT2][P1][1]),
                         )
 
-        return TTCFG(start, rules, clean=True)
+        product = TTCFG(start, rules, clean=True)
+        product.type_request = self.type_request
+        return product
 
     def __mul_dfa_simple__(
         self, other: DFA[U, DerivableProgram]
@@ -410,13 +412,15 @@ class TTCFG(
                 return size + nargs + future <= max_size, (size + 1, future + nargs - 1)
             return size + nargs + 1 + future <= max_size, (size + 1, future + nargs)
 
-        return __saturation_build__(
+        grammar = __saturation_build__(
             dsl,
             type_request,
             (NGram(n_gram), (0, 0)),
             __transition__,
             lambda ctx, P, i, __: ctx[1][0].successor((P, i)),
         )
+        grammar.type_request = type_request
+        return grammar
 
     @classmethod
     def at_most_k(
@@ -445,13 +449,15 @@ class TTCFG(
                 return True, occ_left
             return occ_left > 0, occ_left - 1
 
-        return __saturation_build__(
+        grammar = __saturation_build__(
             dsl,
             type_request,
             (NGram(n_gram), k),
             __transition__,
             lambda ctx, P, i, __: ctx[1][0].successor((P, i)),
         )
+        grammar.type_request = type_request
+        return grammar
 
 
 def __saturation_build__(
